@@ -244,12 +244,14 @@ func (s *ManagedServer) AddCredential(username string, uPSK []byte) error {
 		uPSKHash: uPSKHash,
 	}
 	s.cachedCredMap[username] = uc
-	s.cachedUserLookupMap[uc.uPSKHash] = c
+	s.cachedUserLookupMap[uPSKHash] = c
+	// Apply the change to the live credential stores before releasing the lock, so that
+	// concurrent changes reach them in the same order as they reach the cache.
+	s.updateProdULM(func(ulm ss2022.UserLookupMap) {
+		ulm[uPSKHash] = c
+	})
 	s.mu.Unlock()
 	s.enqueueSave()
-	s.updateProdULM(func(ulm ss2022.UserLookupMap) {
-		ulm[uc.uPSKHash] = c
-	})
 	return nil
 }
 
@@ -282,13 +284,13 @@ func (s *ManagedServer) UpdateCredential(username string, uPSK []byte) error {
 	uc.uPSK = uPSK
 	uc.uPSKHash = uPSKHash
 	delete(s.cachedUserLookupMap, oldUPSKHash)
-	s.cachedUserLookupMap[uc.uPSKHash] = c
-	s.mu.Unlock()
-	s.enqueueSave()
+	s.cachedUserLookupMap[uPSKHash] = c
 	s.updateProdULM(func(ulm ss2022.UserLookupMap) {
 		delete(ulm, oldUPSKHash)
-		ulm[uc.uPSKHash] = c
+		ulm[uPSKHash] = c
 	})
+	s.mu.Unlock()
+	s.enqueueSave()
 	return nil
 }
 
@@ -300,13 +302,14 @@ func (s *ManagedServer) DeleteCredential(username string) error {
 		s.mu.Unlock()
 		return fmt.Errorf("%w: %s", ErrNonexistentUser, username)
 	}
+	uPSKHash := uc.uPSKHash
 	delete(s.cachedCredMap, username)
-	delete(s.cachedUserLookupMap, uc.uPSKHash)
+	delete(s.cachedUserLookupMap, uPSKHash)
+	s.updateProdULM(func(ulm ss2022.UserLookupMap) {
+		delete(ulm, uPSKHash)
+	})
 	s.mu.Unlock()
 	s.enqueueSave()
-	s.updateProdULM(func(ulm ss2022.UserLookupMap) {
-		delete(ulm, uc.uPSKHash)
-	})
 	return nil
 }
 
@@ -362,14 +365,15 @@ func (s *ManagedServer) LoadFromFile() error {
 	s.cachedContent = strings.Clone(content)
 	s.cachedUserLookupMap = userLookupMap
 	s.cachedCredMap = credMap
-	s.mu.Unlock()
 
+	// Replace the live credential stores' maps before releasing the lock, for the same reason as above.
 	if s.tcp != nil {
-		s.tcp.ReplaceUserLookupMap(maps.Clone(s.cachedUserLookupMap))
+		s.tcp.ReplaceUserLookupMap(maps.Clone(userLookupMap))
 	}
 	if s.udp != nil {
-		s.udp.ReplaceUserLookupMap(maps.Clone(s.cachedUserLookupMap))
+		s.udp.ReplaceUserLookupMap(maps.Clone(userLookupMap))
 	}
+	s.mu.Unlock()
 
 	return nil
 }
